@@ -83,6 +83,9 @@ def targeted_discs(rng):
     out.append(("multi", G.Disc([G.Partition([G.Volume("A1", []), G.Volume("A2", [G.SampleFile("X", W(rng, 10), rate=0)])], sectors=12),
                                  G.Partition([], sectors=8),
                                  G.Partition([G.Volume("C1", [G.SampleFile("Y", W(rng, 9000), s3000=True)], s3000=True, dir_mode="run", dir_sectors=2)], sectors=20)])))
+    # extreme tuning: lowest root note tuned all the way down, highest tuned all the way up (unity note outside 0..127), then an ordinary file
+    out.append(("tuning", G.Disc([G.Partition([G.Volume("V", [G.SampleFile("LOW", W(rng, 30), note=21, semi=-50, cents=-128), G.SampleFile("HIGH", W(rng, 30), note=127, semi=50, cents=127),
+                                                               G.SampleFile("AFTER", W(rng, 30))])], sectors=12)])))
     # a pair, both orders, equal lengths that fill a sector
     out.append(("pair", G.Disc([G.Partition([G.Volume("ST", [G.SampleFile("PAD -R", W(rng, 4026)), G.SampleFile("PAD -L", W(rng, 4026)), G.SampleFile("PADX", W(rng, 7))])], sectors=16)])))
     return out
